@@ -2100,8 +2100,12 @@ def _lowlevel_generator(rec, rng, cfg, mol, g, nspin, tag):
     s = _mk_nldf(ver, kws)
     ind = g.grids_indexer
     aux_lmax = int(rng.integers(1, ind.lmax + 1))
+    # radial spline grid of the interpolator: the default reaches 86 bohr; shorter (legal) grids leave grid points beyond the
+    # last knot, which the binning routines must clamp into the last box (added after a seeded off-by-one there)
+    rad_kw = [{}, {"nrad": 100}, {"nrad": 60, "aparam": 0.05, "dparam": 0.06}, {"nrad": 150, "dparam": 0.03}][int(rng.integers(4))]
+    rec.tag("interpolator_radial_grid", "default" if not rad_kw else "short:%s" % sorted(rad_kw.items()))
     gen_ = PyscfNLDFGenerator.from_mol_and_settings(mol, ind, nspin, s, plan_type=cfg["plan_type"], interpolator_type=cfg["interp"], lmax=aux_lmax,
-                                                    aux_lambd=float(rng.choice([1.6, 1.8])))
+                                                    aux_lambd=float(rng.choice([1.6, 1.8])), **rad_kw)
     gen_.interpolator.set_coords(g.coords)
     rec.tag("aux_lmax", aux_lmax)
     ccl = gen_.ccl
